@@ -211,6 +211,62 @@ static void reply(int c, const char *member)
 }
 
 /* common preamble: bystander B owns a state and a method and holds a fetch-all; requester R is connected */
+/* after the scenario every account still authenticates with exactly one password: the one that the acknowledged changes imply
+ * (a change that was answered with an error or not at all leaves the previous password valid) */
+static bool login_works(const char *user, const char *pw)
+{
+	int v = jx_open(CL_RAW);
+	jx_sendf(v, "{\"id\":\"lg\",\"method\":\"authenticate\",\"params\":{\"user\":\"%s\",\"password\":\"%s\"}}", user, pw);
+	jx_settle();
+	bool ok = jx_is_success(jx_find_response_str(v, "lg", 0));
+	sim_client_fin(v);
+	jx_settle();
+	return ok;
+}
+
+static void check_credentials(bool passwd_scenario)
+{
+	/* the two changes of scenario 'passwd' in order; a change that was acknowledged is in effect, one that was answered with an error is
+	 * not, one that got no answer at all (the allocation failed while the answer was built) may be either */
+	static const char *const CAND[] = {"pw-one", "new-pw", "newer-pw"};
+	bool possible[3] = {true, false, false};
+	if (passwd_scenario) {
+		struct cl_msg *a1 = B >= 0 ? jx_find_response_str(B, "bp", 0) : NULL;
+		struct cl_msg *a2 = R >= 0 ? jx_find_response_num(R, 2, 0) : NULL;
+		for (int step = 0; step < 2; step++) {
+			struct cl_msg *a = step == 0 ? a1 : a2;
+			bool next[3] = {false, false, false};
+			for (int i = 0; i < 3; i++) {
+				if (!possible[i]) {
+					continue;
+				}
+				if (a == NULL || !jx_is_success(a)) {
+					next[i] = true; /* refused, or unanswered and without effect */
+				}
+				if (a == NULL || jx_is_success(a)) {
+					next[step + 1] = true; /* acknowledged, or unanswered but in effect */
+				}
+			}
+			memcpy(possible, next, sizeof(possible));
+		}
+	}
+	int works = 0, which = -1;
+	for (int i = 0; i < 3; i++) {
+		if (login_works("u1", CAND[i])) {
+			works++;
+			which = i;
+		}
+	}
+	if (works != 1 || !possible[which]) {
+		char key[300];
+		snprintf(key, sizeof(key), "credentials-damaged:%s", works == 0 ? "no-password-works" : works > 1 ? "several-passwords-work" : "wrong-password-valid");
+		fail15(key, "after the scenario user u1 can authenticate with %d of {pw-one, new-pw, newer-pw}%s%s; the answers to the two changes allow:%s%s%s", works, works == 1 ? ": " : "", works == 1 ? CAND[which] : "", possible[0] ? " pw-one" : "", possible[1] ? " new-pw" : "", possible[2] ? " newer-pw" : "");
+	}
+	if (!login_works("adm", "pw-adm")) {
+		fail15("credentials-damaged:other-account", "after the scenario the administrator can no longer authenticate");
+	}
+}
+
 static void pre_std(void)
 {
 	B = jx_open(CL_RAW);
@@ -246,8 +302,16 @@ static void pre_inflight(void)
 }
 static void pre_auth(void)
 {
-	pre_std();
+	/* authenticate first: it is refused once the peer holds a fetch */
+	B = jx_open(CL_RAW);
 	send(B, "{\"id\":\"ba\",\"method\":\"authenticate\",\"params\":{\"user\":\"adm\",\"password\":\"pw-adm\"}}");
+	if (!jx_is_success(jx_find_response_str(B, "ba", 0))) {
+		xp_harness_error("scenario set-up: the bystander could not authenticate as adm");
+	}
+	send(B, "{\"id\":\"b1\",\"method\":\"add\",\"params\":{\"path\":\"bs\",\"value\":1}}");
+	send(B, "{\"id\":\"b2\",\"method\":\"add\",\"params\":{\"path\":\"bm\"}}");
+	send(B, "{\"id\":\"b3\",\"method\":\"fetch\",\"params\":{\"id\":\"fb\"}}");
+	R = jx_open(CL_RAW);
 }
 static void pre_none(void)
 {
@@ -388,6 +452,8 @@ static void body_passwd(void)
 {
 	send(B, "{\"id\":\"bp\",\"method\":\"passwd\",\"params\":{\"user\":\"u1\",\"password\":\"new-pw\"}}");
 	send(R, "{\"id\":1,\"method\":\"authenticate\",\"params\":{\"user\":\"u1\",\"password\":\"new-pw\"}}");
+	send(R, "{\"id\":2,\"method\":\"passwd\",\"params\":{\"user\":\"u1\",\"password\":\"newer-pw\"}}");
+	send(R, "{\"id\":3,\"method\":\"authenticate\",\"params\":{\"user\":\"u1\",\"password\":\"newer-pw\"}}");
 }
 static void body_batch(void)
 {
@@ -611,6 +677,9 @@ static void run(void)
 		check_at_most_one_response(B);
 		if (!sc->passwd && !fill) {
 			check_element_integrity();
+		}
+		if (sc->passwd && !fill) {
+			check_credentials(sc->body == body_passwd);
 		}
 		/* the loaded credential set may legitimately have changed size */
 		if (sc->body == body_passwd) {
